@@ -22,7 +22,7 @@ G(id, c) == IF c THEN TRUE ELSE (TLCSet(2, TLCGet(2) \cup {<<l, id>>}) /\ FALSE)
 IsEvent(e) == l <= Len(Rec) /\ Rec[l].ev = e /\ l' = l + 1
 E == Rec[l]
 
-NoCfg == [cap |-> Unb, strat |-> "restart", stream |-> FALSE, tmo |-> 0, failto |-> FALSE, owning |-> FALSE,
+NoCfg == [cap |-> Unb, strat |-> "restart", stream |-> FALSE, tmo |-> -1, failto |-> FALSE, owning |-> FALSE,
           sscr |-> <<>>, pscr |-> <<>>, fscr |-> <<>>, ty |-> "0", items0 |-> 0, ended0 |-> FALSE, iscr |-> <<>>]
 OpOf(r) == [op |-> r.op, h |-> r.h, nh |-> r.nh, a |-> r.a, scr |-> r.scr, d |-> r.d, to |-> r.to,
             ty |-> r.ty, nh2 |-> r.nh2, h2 |-> r.h2,
@@ -129,8 +129,8 @@ T_Cb == /\ IsEvent("cb")
                                                 /\ hst.cb[a][Len(hst.cb[a])][1] = "pb" /\ hst.cb[a][Len(hst.cb[a]) - 1][1] = "fe"
                                                 /\ ~act[a].pbseen)
                           /\ act' = [act EXCEPT ![a].pbseen = TRUE] /\ UNCHANGED <<hnd, cli, rsp, tmr, reg, now, hst, cur, yl>>
-                     ELSE /\ (act[a].pc # "failed" \/ G("cb.pb.failed", FALSE))     \* the graceful epilogue on a failure path
-                          /\ (~(act[a].pc = "idle" /\ act[a].mq # <<>>) \/ G("cb.pb.undrained", FALSE))   \* stopping with accepted messages still queued
+                     ELSE /\ (IF act[a].pc # "failed" THEN TRUE ELSE G("cb.pb.failed", FALSE))     \* the graceful epilogue on a failure path
+                          /\ (IF ~(act[a].pc = "idle" /\ act[a].mq # <<>>) THEN TRUE ELSE G("cb.pb.undrained", FALSE))   \* stopping with accepted messages still queued
                           /\ G("cb.pb", \/ act[a].pc = "dequeued" /\ act[a].curp.k \in {"stop", "restart"}
                                         \/ act[a].pc = "idle" /\ act[a].mq = <<>> /\ ~ChanOpen(a))
                           /\ RunLoop(a)
@@ -245,6 +245,7 @@ IsSilentLoop(a) ==
   \/ act[a].pc = "idle" /\ act[a].mq # <<>>                                   \* Dequeue
   \/ act[a].pc = "idle" /\ act[a].stream /\ act[a].sq.ready > 0                \* StreamItem
   \/ act[a].pc = "dequeued" /\ act[a].curp.k = "task" /\ act[a].curp.rs = "ping"   \* PingHandled
+  \/ act[a].pc = "dequeued" /\ act[a].curp.k = "task" /\ act[a].tmo = 0 /\ ~act[a].stream   \* TimeoutBeforeStart (or the handler, with its events)
   \/ act[a].pc = "dequeued" /\ act[a].curp.k = "restart" /\ (act[a].strat = "none" \/ act[a].stream)
   \/ act[a].pc \in {"stopped", "notified"}                                  \* Notify, Exit
   \/ InScript(a) /\ ~ScriptDone(a) /\ CurEff(a).e = "sleep" /\ act[a].sdl >= 0 /\ now >= act[a].sdl
